@@ -183,7 +183,7 @@ pub fn map_states(depth: usize) -> Vec<(MM, String)> {
 }
 
 pub fn standin_map_iters(r: &mut Report) {
-    r.target = "Map::keys / values / iter: one item per present key with (map clock, entry clock)".into();
+    r.target = "Map::keys / values / iter (verified against the Map-adapter shim; this exercises the shim on the real crate): one item per present key with (map clock, entry clock)".into();
     r.bound = "all states reached by <= 3 steps over 2 replicas, keys {0,1}".into();
     STOP.store(false, std::sync::atomic::Ordering::Relaxed);
     rec(vec![MM::new(), MM::new()], vec![vec![], vec![]], vec![], String::new(), 3, 1, r);
